@@ -11,23 +11,24 @@ PROP = {
         "{empty, standard}, source nibble/bytes == peer (0b0000 & V4, 0b0011 & V6)); no service / unknown-length nibble and "
         "no v4-mapped peer ever matches; Ok(v) => v is the prefix d[..min(hdr+payload, len)] (same memory); Err carries "
         "the datagram / a prefix of it; no panic, no out-of-bounds access in the unsafe view code",
-        "create_scmp_error for every error of inbound_datagram_check x any local/destination address x any target size: "
-        "Err(BufferTooSmall(req)) with target < req <= 1232, or Ok(n) with n <= target.len(), n <= 1232, a SCION/SCMP "
-        "ParameterProblem packet with the matching code, quoting a prefix of the offending datagram, with a verifying "
-        "RFC 1071 checksum over the SCION pseudo header (spec written in the harness); never another error",
-        "reply size for long offenders: malformed datagrams of any length <= 9216 => required reply size <= 1232, "
-        "quote <= offender, whole offender quoted when it fits",
+        "reply size (create_scmp_error on the real error values with an empty target => Err(BufferTooSmall(req))): malformed "
+        "datagrams of any length <= 9216 x any v4/v6 local/destination addresses => required reply size req <= 1232, "
+        "req >= header + 8, quote <= offender, whole offender quoted when it fits; never Ok / another error for an empty target",
     ],
     "not_decided": [
         "'never dispatched' for rejected datagrams and 'at most one reply': the gateway receive loop "
         "(TunnelGateway::start_server) is async around SnapTunServer/WireGuard state and is not driven by a harness; "
         "try_dispatch is textually only on the Ok arm and create_scmp_error returns one packet (inspected, anchor-scanned, "
         "not proved)",
+        "byte-level reply contract (reply fits the target, ParameterProblem code, quote bytes = prefix of the datagram, RFC 1071 "
+        "checksum verifies): harness c08_reply_bytes_n48 is written in /verif/kani/snap_dataplane/c08_reply.rs but not registered: "
+        "symbolic-size encode buffers exhaust >10 GB in CBMC (same encoder as C14 clause 2, where the checksum defect "
+        "fixes/scmp-checksum is demonstrated); c08_family_n52 (v4-mapped peers, implied by the decision contract) passed in 421 s "
+        "at 64 B in a direct run but is not registered (time budget)",
         "datagrams longer than the harness bound (decision: 120 B; the decision reads only header bytes <= 1020 B; "
         "headers between 120 and 1020 B are not covered)",
     ],
     "assumptions": [
-        "reply byte-level harness: offending datagram <= 48 B, target buffer <= 160 B",
         "reply budget harness: offender bytes are zero (size depends on the length only), length symbolic <= 9216",
     ],
     "trusted": ["ana_gotatun::packet::Packet / bytes::BytesMut as target buffer (compiled in, not stubbed)"],
@@ -44,8 +45,6 @@ PROP = {
             "harnesses": [
                 H("c08_decision_n120", "B", bound="datagram <= 120 B (all bytes and length symbolic) x all v4/v6 peers",
                   what="decision <=> independent byte-level spec; accepted view = prefix; Err carries the datagram", timeout=2400),
-                H("c08_family_n52", "B", bound="datagram <= 52 B x all v4 peers and their v4-mapped form",
-                  what="v4-mapped v6 peer never matches an IPv4 source and vice versa", timeout=2400),
             ],
         },
         {
@@ -57,8 +56,6 @@ PROP = {
             "anchors": [(GATEWAY, ["create_scmp_error", "create_inbound_scmp_error"])],
             "functions": ["TunnelGateway::create_scmp_error", "create_inbound_scmp_error"],
             "harnesses": [
-                H("c08_reply_bytes_n48", "B", bound="offending datagram <= 48 B, target <= 160 B, any v4/v6 addresses",
-                  what="reply fits, <= 1232, ParameterProblem with matching code, quote = prefix, checksum verifies", timeout=2400),
                 H("c08_reply_budget_l9216", "B", bound="offender length symbolic <= 9216 (zero bytes), any v4/v6 addresses",
                   what="required reply size <= 1232 for long offenders", timeout=1200),
             ],
